@@ -185,7 +185,7 @@ def run(ck):
     sw = vlib.prep_spec(COMP, ck.work)
     ck.cov["rule"] = ("scenarios = transport-read transitions and completed runs of the exhaustive WsReadImpl graph (shortest path + edge; "
                       "quick: seeded sample of the larger slices), seeded random long histories, thorough: every split offset of short "
-                      "streams; each scenario runs through 13 API runs (4 APIs x inline/deferred/would-block variants; the async APIs also as a read loop that starts the next read from inside the completion callback); "
+                      "streams; each scenario runs through 17 API runs (4 APIs x inline/deferred/would-block variants; the async APIs also as a read loop that starts the next read from inside the completion callback; all four once more after the application has sent its own Close); "
                       "non-trivial = some segment boundary falls strictly inside a frame")
     if ck.tier == "quick":
         run_slices(ck, sw, SLICES_QUICK, BASE, SIM, 500, offsets=(20, 0, 4000), pool=5)
